@@ -75,7 +75,7 @@ def batch(n, seed):
     rs = np.random.RandomState(seed)
     rs2 = np.random.RandomState(seed + 777)
     viol = {}
-    built = refused = reused = 0
+    built = refused = reused = grid_rows = 0
     nt = set()
     pts_checked = 0
     for s in range(n):
@@ -217,10 +217,33 @@ def batch(n, seed):
                 viol.setdefault("C11/map-not-affine-or-log-affine", dict(ctx, dev=dev, tol=tol_aff))
 
         judge(ctx)
+        if intdtype or s % 5 == 0:
+            # the multi-row helper of the anchored grid_functions module must agree with the transformer itself, also for
+            # integer-typed point arrays (a valid spelling of integer-valued points)
+            try:
+                from pybads.search.grid_functions import grid_units
+
+                vt_ = VariableTransformer(D, *[np.array(a_, float) for a_ in (lb.reshape(1, -1), ub.reshape(1, -1), plb.reshape(1, -1), pub.reshape(1, -1))])
+                lo_ = np.where(np.isfinite(lb), lb, plb - 3 * (pub - plb))
+                hi_ = np.where(np.isfinite(ub), ub, pub + 3 * (pub - plb))
+                if intdtype:
+                    Xg = np.array([np.ceil(lo_), np.ceil(plb), np.floor(0.5 * (plb + pub)), np.floor(pub), np.floor(hi_)]).astype(int)
+                else:
+                    Xg = np.array([lo_, plb, 0.5 * (plb + pub), pub, hi_], float)
+                want_ = vt_(Xg.astype(float).copy())
+                got_ = np.asarray(grid_units(Xg.copy(), vt_, None, None), float)
+                grid_rows += Xg.shape[0]
+                if got_.shape != want_.shape or not np.allclose(got_, want_, rtol=0, atol=1e-12):
+                    viol.setdefault("C11/grid-units-differs-from-transformer", dict(ctx, X=Xg, got=got_, want=want_, dtype=str(Xg.dtype)))
+            except ValueError as e:
+                if "Cannot invert" not in str(e):  # (the constructor's own refusal is judged in judge(), not here)
+                    viol.setdefault("C11/grid-units-raised", dict(ctx, exc=repr(e)[:200]))
+            except Exception as e:
+                viol.setdefault("C11/grid-units-raised", dict(ctx, exc=repr(e)[:200]))
         if reuse:
             reused += 1
             judge(dict(ctx, construction="second, from the same caller arrays"))
-    return n, built, refused, pts_checked, sorted(nt), viol, reused
+    return n, built, refused, pts_checked, sorted(nt), viol, reused, grid_rows
 
 
 def example_sets(seed, k=3):
@@ -291,9 +314,9 @@ def cases(tier, seed):
 
 def run_case(case):
     if case["kind"] == "sets":
-        n, built, refused, pts, nt, viol, reused = batch(case["n"], case["seed"])
+        n, built, refused, pts, nt, viol, reused, grid_rows = batch(case["n"], case["seed"])
         return {"status": "sets", "n": n, "built": built, "refused": refused, "nt": nt,
-                "cnt": {"C11.bound_sets": n, "C11.built": built, "C11.refused_by_selftest": refused, "C11.point_coordinates_checked": pts, "C11.second_constructions_from_same_arrays": reused},
+                "cnt": {"C11.bound_sets": n, "C11.built": built, "C11.refused_by_selftest": refused, "C11.point_coordinates_checked": pts, "C11.second_constructions_from_same_arrays": reused, "C11.grid_units_rows_compared": grid_rows},
                 "viol": [{"key": k, "detail": v} for k, v in viol.items()]}
     k, viol, jpm = bads_scaling_cases(case["n"], case["seed"])
     return {"status": "bads", "cnt": {"C11.bads_scaling_constructions": k, "C11.bads_constructions_plausible_unit_judged": jpm}, "viol": [{"key": a, "detail": b} for a, b in viol.items()], "nt": []}
